@@ -24,7 +24,9 @@ import vlib
 SIG = A.SIG
 KEY_WINDOW = "reload-window-death"
 KEY_ACCEPTED = "accepted-not-started-dropped"
-BIND_CHOICES = [["127.0.0.1:8000"], ["unix:/run/gv/r.sock"], ["127.0.0.1:8001"], ["127.0.0.1:8000", "unix:/run/gv/r2.sock"]]
+BIND_CHOICES = [["127.0.0.1:8000"], ["unix:/run/gv/r.sock"], ["127.0.0.1:8001"], ["127.0.0.1:8000", "unix:/run/gv/r2.sock"],
+                # bind settings whose text is not what getsockname() reports for the bound socket
+                ["localhost:8000"], ["127.0.0.1:0"], [":8002"], ["localhost:0", "unix:/run/gv/r3.sock"]]
 
 
 # ---------------------------------------------------------------------------------------------------------------------
@@ -340,6 +342,10 @@ def fixed_cases():
     for i in range(0, 26):
         cs.append({"cfg": {"workers": 2, "bind": 0}, "kind": "delivery-point",
                    "script": boot + [("S", SIG["HUP"])] + [M] * 14 + [("S", SIG["HUP"])] + [M] * i + [("XTk", 0), ("C",)] + [M] * 20})
+    # a bind setting spelled with a host name, without a host, with port 0: "unchanged" means the SETTING is unchanged
+    for b in (4, 5, 6, 7):
+        cs.append({"cfg": {"workers": 2, "bind": b}, "script": boot + [("S", SIG["HUP"])] + [M] * 40, "kind": "bind-form"})
+    cs.append({"cfg": {"workers": 1, "bind": 5}, "script": boot + [("S", SIG["HUP"])] + [M] * 20 + [("S", SIG["HUP"])] + [M] * 30, "kind": "bind-form"})
     # the bind address changes / changes back
     cs.append({"cfg": {"workers": 2, "bind": 0}, "script": boot + [("B", BIND_CHOICES[1]), ("S", SIG["HUP"])] + [M] * 30 +
                [("B", BIND_CHOICES[0]), ("S", SIG["HUP"])] + [M] * 30, "kind": "rebind"})
@@ -403,7 +409,7 @@ def gen_random(rng):
                 script.append(("C",))
         script += [M] * rng.choice([0, 1, 2, 3, 5, 8, 13, 21])
     rebinds = any(l[0] == "B" for l in script)
-    return {"cfg": {"workers": nw, "bind": 0 if rebinds or rng.random() < 0.7 else 3}, "script": script, "kind": "random",
+    return {"cfg": {"workers": nw, "bind": 0 if rebinds or rng.random() < 0.6 else rng.choice([3, 3, 4, 5, 6, 7])}, "script": script, "kind": "random",
             "crashes": crashes, "tail_loops": 8, "prelude": prelude}
 
 
